@@ -8,9 +8,9 @@
 (* `const` (must compile, run and show the written value).                          *)
 EXTENDS Ast, TLC, Json
 
-Decls == {"mod", "mod_typed", "mod_unpack", "fn", "block", "list", "obj", "objlist", "opt", "class_name", "import_mod", "export_member", "mod_libname"}
+Decls == {"mod", "mod_typed", "mod_unpack", "mod_redecl", "fn", "block", "list", "obj", "objlist", "opt", "class_name", "import_mod", "export_member", "mod_libname"}
 Forms == {"assign", "typed", "add", "sub", "mul", "div", "rem", "unwrap", "modify", "index", "index_add", "field", "field_add",
-          "counter", "unpack", "paren_field_index_add", "paren_index_field_mul", "import_mod"}
+          "counter", "unpack", "unpack1", "paren_field_index_add", "paren_index_field_mul", "import_mod"}
 Contexts == {"same", "block", "nested_fn", "method", "loop_body"}
 
 (* the constness machine *)
@@ -18,7 +18,7 @@ WriteEnabled(isConst) == ~isConst
 
 (* does `form` applied from `ctx` denote a write to the binding declared by `decl`? *)
 IsWrite(decl, form, ctx) ==
-    /\ CASE decl \in {"mod", "mod_typed", "mod_unpack", "fn", "block"} -> form \in {"assign", "typed", "add", "sub", "mul", "div", "rem", "modify", "counter"}
+    /\ CASE decl \in {"mod", "mod_typed", "mod_unpack", "mod_redecl", "fn", "block"} -> form \in {"assign", "typed", "add", "sub", "mul", "div", "rem", "modify", "counter", "unpack", "unpack1"}
          [] decl = "list" -> form \in {"index", "index_add"}
          [] decl = "obj" -> form \in {"assign", "field", "field_add", "modify", "paren_field_index_add"}   \* `(p.ws)[k] += v`
          [] decl = "objlist" -> form \in {"paren_index_field_mul"}                                       \* `(ps[k]).v *= v`
@@ -35,7 +35,10 @@ IsWrite(decl, form, ctx) ==
     \* a loop whose counter re-uses a name declared in an *enclosing* block is left out: whether the counter then is the
     \* outer variable or a fresh one is not pinned down by the language (the implementation makes it a fresh one)
     /\ form = "counter" => ctx = "same"
-    \* (`[x, y] = ..` can never re-use an existing name, const or not: unpacking is not a write form)
+    \* `[x, y] = ..` and `[x] = ..` can never re-use an existing name, const or not: on a const the statement must be rejected
+    \* like any write, and there is no mutable twin (an unpack statement must be the first of its block: after an expression
+    \* the parser reads `[` as an index)
+    /\ form \in {"unpack", "unpack1"} => ctx \in {"block", "loop_body"}
     /\ decl \in {"fn", "block"} => ctx \in {"same", "block", "loop_body", "nested_fn"}
     /\ decl \in {"class_name", "import_mod", "export_member"} => ctx \in {"same", "block"}
     /\ decl = "mod_libname" => ctx \in {"same", "block", "loop_body"}
@@ -53,13 +56,15 @@ PClass == [k |-> "class", n |-> "P", export |-> FALSE, fields |-> <<[n |-> "v", 
            ctor |-> <<[ps |-> <<>>, b |-> <<Assign(Fld(Self, "v"), "=", I(1)), Assign(Fld(Self, "ws"), "=", List(<<I(1), I(2)>>))>>]>>, methods |-> <<>>]
 Paren(e) == [k |-> "paren", e |-> e]
 
-Name == CASE t.decl \in {"mod", "mod_typed", "mod_unpack", "fn", "block"} -> "x" [] t.decl = "list" -> "xs" [] t.decl = "obj" -> "p"
+Name == CASE t.decl \in {"mod", "mod_typed", "mod_unpack", "mod_redecl", "fn", "block"} -> "x" [] t.decl = "list" -> "xs" [] t.decl = "obj" -> "p"
           [] t.decl = "objlist" -> "ps"
           [] t.decl = "opt" -> "o" [] t.decl = "class_name" -> "P" [] t.decl \in {"import_mod", "export_member", "mod_libname"} -> "lib"
 
 Declare(c) ==
     CASE t.decl \in {"mod", "fn", "block"} -> <<LetC("x", "", I(5), c)>>
       [] t.decl = "mod_typed" -> <<LetC("x", "int", I(5), c)>>
+      \* a mutable variable declared again, as a const of the same type: from here on the name is const
+      [] t.decl = "mod_redecl" -> <<Let("x", I(3)), LetC("x", "", I(5), c)>>
       [] t.decl = "mod_unpack" -> <<[k |-> "unpack", ns |-> <<"x", "zz">>, e |-> List(<<I(5), I(6)>>), const |-> c]>>   \* `const [x, zz] = [5, 6]`
       [] t.decl = "list" -> <<LetC("xs", "[int...]", List(<<I(1), I(2)>>), c)>>
       [] t.decl = "obj" -> <<LetC("p", "", New("P", <<>>), c)>>
@@ -85,6 +90,7 @@ WriteStmts ==
       [] t.form = "import_mod" -> <<[k |-> "import", form |-> "mod", path |-> "lib", names |-> <<>>]>>
       [] t.form = "counter" -> <<From(I(0), I(3), FALSE, <<>>, Name, <<Print(S("it"))>>)>>
       [] t.form = "unpack" -> <<Unpack(<<Name, "yy">>, List(<<I(7), I(8)>>))>>
+      [] t.form = "unpack1" -> <<Unpack(<<Name>>, List(<<I(7), I(8)>>))>>
 
 Shown == CASE t.decl = "list" -> <<Print(V("xs"))>>
            [] t.decl = "obj" -> <<Print(Fld(V("p"), "v")), Print(Fld(V("p"), "ws"))>>
@@ -118,7 +124,7 @@ Project(c) == IF t.decl \in {"import_mod", "export_member", "mod_libname"}
               THEN [entry |-> 1, mods |-> <<[name |-> "main", body |-> MainBody(c)], [name |-> "lib", body |-> LibBody(c)]>>]
               ELSE [body |-> MainBody(c)]
 (* class names, imported modules and their members have no mutable twin *)
-HasTwin == t.decl \notin {"class_name", "import_mod", "export_member", "mod_libname"}
+HasTwin == t.decl \notin {"class_name", "import_mod", "export_member", "mod_libname"} /\ t.form \notin {"unpack", "unpack1"}
 
 EmitCase == PrintT("CASE " \o ToJson([t |-> t, const_enabled |-> WriteEnabled(TRUE), twin_enabled |-> WriteEnabled(FALSE),
                                        has_twin |-> HasTwin, prog |-> Project(TRUE), twin |-> Project(FALSE)]))
